@@ -440,7 +440,8 @@ def run_shard(desc, ctx):
                     k += 1
                     mon.inline(p, enc, ti, 'inline:enum')
         rng = ctx.rng
-        extra = ['ж', '中', '\t', '~', '%', ',', ';', '?', '|', '&', '2', 'Z', '_']
+        extra = ['ж', '中', '\t', '~', '%', ',', ';', '?', '|', '&', '2', 'Z', '_',
+                 '\x0c', '\x85', '\u2028', '\x0b', '\x1c', '\u2029', '\xa0', '\u3000', 'e\u0301', '\u200b']      # characters str.splitlines() / str.split() treat specially: text all the same
         for _ in range(desc['random']):
             L = rng.randint(4, 30) if rng.random() < 0.85 else rng.randint(31, 160)
             p = ''.join(rng.choice(ALPHA) if rng.random() < 0.9 else rng.choice(extra) for _ in range(L))
